@@ -2,18 +2,19 @@ CFG = {
     "jobs": lambda tier: [
         J("scaled", "c02-comp --aspect C05", imports="Base Stream Inst Run RunFsComp", shard=20),
         J("scaled", "c05"),
-        J("scaled", "c05-blocks"),
+        J("scaled", "c05-blocks", imports="Base Stream Inst Run RunFsComp RunFsStack", shard=8),
         J("scaled", "c05-ids"),
         J("scaled", "witness --only C05"),
     ],
-    "run_modules": ["RunFsComp"],
+    "run_modules": ["RunFsComp", "RunFsStack"],
     "rule": "scaled constants: generated archives as for C02 (12 quick / 60 thorough, 4 layer combinations, authenticated and "
             "unauthenticated recovery); for each archive EVERY cut point from the end of the header to the full length, in "
             "increasing order: no panic, no file shrinks when one more byte is given, without compression every content byte "
             "present in the usable part is recovered, the intact archive is recovered completely with EndOfOriginalArchiveData; "
             "non-trivial = the archive has content; distinct = distinct (archive, mode); plus 160 (quick) / 1200 (thorough) undamaged "
             "compressed (and compressed+encrypted) archives of 300-3000 bytes in 1-12 blocks, entropy {runs, text, random}, levels {0,1,5,9,11}, "
-            "repaired from memory in both modes and from sources returning 1, 2, 3 or 7 bytes per read: complete recovery and EndOfOriginalArchiveData; "
+            "repaired from memory in both modes and from sources returning 1, 2, 3 or 7 bytes per read: complete recovery and EndOfOriginalArchiveData, "
+            "and every from-memory repair (archive x mode) model-compared (repair_comp / repair_comp_enc); "
             "plus 24 (120) layer-less archives whose file ids are remapped (+1, +2^40+7, reversed): read normally and repaired completely (model-compared)",
     "rule_fscomp": 'c02-comp (scaled, BLOCK=256, FSBUF=32): 40 (quick) / 160 (thorough) compressed-only layer streams of 0..3*BLOCK+20 bytes (fixed lengths 0, 1, BLOCK-1, BLOCK, BLOCK+1, 2*BLOCK, 3*BLOCK+20, then random), entropy {runs, text, random} x levels {0, 5, 11}, written in random pieces, every second one with flush() after random pieces; for each stream EVERY truncation length of the wire x read sizes {1, 7, 32, 4096}: the real CompressionLayerFailSafeReader run to the first Ok(0)/error; oracles: the output for cut n+1 extends the output for cut n (every n, every read size); once all blocks are present everything is delivered; model comparison as for C02',
     "exhaustive": {"quick": False, "thorough": False},
@@ -27,7 +28,12 @@ CFG = {
                    "OR the shorter cut contains an exhibited forgery (EncAuth.Forgery: a window accepted under counter i whose ciphertext the writer did "
                    "not produce for chunk i) - no unforgeability assumed; C05_example_auth_auth_forgery_disjunct_needed shows with a weak tag function "
                    "that the disjunct cannot be dropped, C05_example_unauth_then_auth_not_monotone why the excluded pair is excluded; "
-                   "correspondence and oracle as for C02 (byte counts against the generating plan)",
+                   "correspondence and oracle as for C02 (byte counts against the generating plan); c05-blocks: the rows (status, unfinished names sorted, "
+                   "per-file recovered bytes via the re-read of the repaired archive) of the real repair of every undamaged compressed / "
+                   "compressed+encrypted archive, in both decryption modes, equal the model's repair_comp / repair_comp_enc "
+                   "(theories/RunFsStack.v: repair loop over the fail-safe decompression reader model over the cursor / the fail-safe decryptor, "
+                   "greedy table-driven decoder instance, brotli tabulated per archive without mla; schedule independence by fs_comp_sched_indep / "
+                   "repair_fscomp_exact); job c05 itself stays oracle-only (one case per archive with all cuts inside; C02 model-compares every cut)",
     "explanation_fscomp": 'compressed archives (props/C05.v): C05_fs_comp_monotone — a longer prefix of the wire gives a longer-or-equal output of the fail-safe decompression reader (prefix order), for any two runs (sources, read sizes, decoder emission schedules), from the law that D is monotone; C05_fs_comp_complete — with all blocks present the whole plaintext is delivered; C02_fs_comp_maximal — everything decodable from the available bytes is delivered (D4-D6).',
     "trusted_base": ["DecoderLaws (theories/CompFailSafeProofs.v), assumed of brotli's streaming decoder and observed on the real decoder by job c02-comp (fscomp.rs::check_laws, random input slices and output room): D x = maximal output decodable from the consumed bytes x, fin x = x is exactly one complete stream; fin [] = false; fin is prefix-free; D is monotone; a call consumes <= the input and produces <= the room; never consumes past the end of a complete stream; everything emitted so far is a prefix of D(consumed); ResultSuccess only with exactly one complete stream consumed and nothing pending; NeedsMoreInput only with all input consumed and (room exhausted or nothing pending); NeedsMoreOutput only with the room exhausted and something pending; ResultFailure never on bytes consistent with a complete stream. No assumption on how much one call emits otherwise.", 'the bytes after the last compressed block (SizesInfo footer) are `dead` for a fresh decoder: no output and no complete stream on any prefix (complete EMPTY streams inside the footer are covered by listing them as blocks); checked for every generated stream by c02-comp (tail_fail_at)'],
     "assumptions": ['compression: maximality is relative to D (what brotli can decode from a prefix of a compressed block), not to the plaintext bytes written: a cut inside a compressed block loses the bytes brotli had not yet emitted (the property text excludes them)',
